@@ -69,6 +69,26 @@ Theorem C07_one_head : forall s i R r v w n m, RepoInv s ->
 Proof. exact inv_one_head. Qed.
 Print Assumptions C07_one_head.
 
+(* newversion never forks a branch: it is refused on a node that already has a child on its branch *)
+Theorem C07_second_newversion_refused : forall fx s p a f i r v n c cn,
+  find_node s p = Some (i, r, v, n) -> c ∈ n_children n -> r_nodes r !! c = Some cn ->
+  n_branch cn = n_branch n -> snd (do_new_version fx s p "" a f) = Fail.
+Proof. exact newversion_sister_refused. Qed.
+Print Assumptions C07_second_newversion_refused.
+
+(* master after a merge (merge nodes carry the empty branch name): the node merged from gets a second
+   child on branch "", root:master keeps naming the newversion lineage, and root:master~n depends on
+   Go's map iteration order -- the model has all the answers the server gives *)
+Example C07_master_after_merge :
+  let s0 := run repaired init c02dag in
+  let s1 := fst (step repaired s0 (RMerge (U u2) true [U u2; U u3] u5)) in
+  snd (step repaired s0 (RNewVersion (U u2) "" u5)) = Fail /\
+  snd (step repaired s0 (RMerge (U u2) true [U u2; U u3] u5)) = Done u5 /\
+  snd (step repaired s1 (RNewVersion (U u2) "" u6)) = Fail /\
+  matching s1 (U (u1 ++ ":master")) = Done u4 /\
+  List.map (fun p => matching s1 (mkUref (u1 ++ ":master~0") p)) [0; 1; 3]%nat = [Fail; Done u5; Done u4].
+Proof. exact master_after_merge_example. Qed.
+
 (* ---- the code as found (each theorem switches off one repair only) ---- *)
 
 (* a refused merge leaves its child node in the DAG (and consumes a version id) *)
